@@ -282,10 +282,14 @@ class Atoms:
             out[tuple(sorted((a, e) for a, e in m.items() if e != 0))] = c
         return Poly(out)
 
+    rational_const_div = False
+
     def floordiv(self, p, d):
         p, d = _coerce(p), _coerce(d)
         if d == C(1):
             return p
+        if self.rational_const_div and d.is_const() and d.const_value() > 0 and not p.is_const():
+            return p * C(1 / d.const_value())
         if p.is_const() and d.is_const() and d.const_value() != 0:
             import math
             return C(math.floor(p.const_value() / d.const_value()))
@@ -330,7 +334,12 @@ class Atoms:
         return A(name)
 
     def _carry(self, p):
-        """0/1 indicator of p >= 0, named canonically by the normal form of p."""
+        """0/1 indicator of p >= 0, named canonically by the normal form of p.
+        For integer p:  [p >= 0] = 1 - [-p - 1 >= 0]; the form whose first non-constant term has a
+        positive coefficient is the canonical one."""
+        nonconst = sorted((k, v) for k, v in p.t.items() if k != ())
+        if nonconst and nonconst[0][1] < 0:
+            return C(1) - self._carry(-p - 1)
         name = '[%r>=0]' % (p,)
         if name not in self.rng:
             self.declare(name, 0, 2, kind='carry', of=p)
